@@ -173,6 +173,17 @@ def _stmt(node, counter, exc_out):
     elif isinstance(node, (ast.With, ast.AsyncWith)):
         for items, term in _seq(node.body, 0, counter, exc_out):
             yield [('stmt', node)] + items, term
+    elif hasattr(ast, 'Match') and isinstance(node, ast.Match):
+        # one path per case (the subject is evaluated first), and the fall-through when no case is irrefutable
+        irrefutable = False
+        for case in node.cases:
+            for items, term in _seq(case.body, 0, counter, exc_out):
+                yield [('stmt', ast.Expr(value=node.subject))] + items, term
+            pat = case.pattern
+            if case.guard is None and isinstance(pat, ast.MatchAs) and pat.pattern is None:
+                irrefutable = True
+        if not irrefutable:
+            yield [('stmt', ast.Expr(value=node.subject))], None
     elif isinstance(node, ast.Return):
         yield [('stmt', node)], ('return', node)
     elif isinstance(node, ast.Raise):
